@@ -11,6 +11,14 @@ pub(crate) use crate::verif_common as common;
 #[path = "/verif/harness/daemon/c01.rs"]
 mod c01;
 
+// the end-to-end part of C01 (real session loop); reuses the generators of c01.rs, so
+// `verif_c01` has to be enabled with it
+#[cfg(all(verif_c01e, not(verif_c01)))]
+compile_error!("--cfg verif_c01e needs --cfg verif_c01 (c01e.rs uses the generators of c01.rs)");
+#[cfg(verif_c01e)]
+#[path = "/verif/harness/daemon/c01e.rs"]
+mod c01e;
+
 #[cfg(verif_c05)]
 #[path = "/verif/harness/daemon/c05.rs"]
 mod c05;
